@@ -9,7 +9,8 @@ Driver commands of property C19 (core Lean only).  Command names start with "c19
   c19.pos <rec> <p,p,...>                 Model Record.Position
   c19.reads <hex> <rec> <sizes> <ranges>  Model seqWhole/seqRange + Read calls (sizes used cyclically)
 
-<file> = records separated by ';', each `name,desc|n,bases,width,L|C,0|1,blank.blank...|n` (hex fields);
+<file> = `lead/records`: lead = blank lines before the first record (`n` or hex contents separated by '.'),
+         records separated by ';', each `name,desc|n,bases,width,L|C,0|1,blank.blank...|n` (hex fields);
 <rec>  = `name:length:start:basesPerLine:bytesPerLine`; <recs> = records separated by '|'.
 -/
 import Hts.Drv.Util
@@ -35,9 +36,13 @@ def parseSpecRec (s : String) : Option Hts.Spec.Fasta.Rec :=
     some { name, desc, bases, width, eol, finalNewline := fin, blanksAfter := blanks }
   | _ => none
 
-def parseFile (s : String) : Option Hts.Spec.Fasta.File := do
-  let recs ← (s.splitOn ";").mapM parseSpecRec
-  some { recs }
+def parseFile (s : String) : Option Hts.Spec.Fasta.File :=
+  match s.splitOn "/" with
+  | [lead, rs] => do
+    let leadingBlanks ← if lead == "n" then some [] else (lead.splitOn ".").mapM parseBytes
+    let recs ← (rs.splitOn ";").mapM parseSpecRec
+    some { leadingBlanks, recs }
+  | _ => none
 
 def recStr (name : Bytes) (a b c d : Int) : String := s!"{hexB name}:{a}:{b}:{c}:{d}"
 
